@@ -4,6 +4,12 @@ CallsFn == [t \in Tasks |-> 1 + (t % 3)]
 \* termination: the map always delivers every result; a schedule that gets stuck is a TLC deadlock error
 Terminated == AllDone /\ UNCHANGED pvars
 Next == PoolNext \/ Terminated
+\* liveness (MC_Pool_live.cfg): under weak fairness of the pool's steps every map delivers every result - no schedule in
+\* which the consumer waits for ever for the result at the head of the order while workers idle or run later tasks
+LiveSpec == Init /\ [][Next]_pvars /\ WF_pvars(PoolNext)
+NoFairSpec == Init /\ [][Next]_pvars          \* without fairness the property must FAIL (MC_Pool_live_x.cfg): it is not vacuous
+Prop_Terminates == <>AllDone
+Prop_EveryTaskDelivered == \A t \in Tasks : (\E i \in 1..Len(order) : order[i] = t) ~> (\E i \in 1..Len(yielded) : yielded[i].task = t)
 N == Cardinality(Tasks)
 InitFull == /\ order = [i \in 1..N |-> i]
             /\ next = 1 /\ running = [w \in Workers |-> 0] /\ iter = [w \in Workers |-> ParentCounter]
